@@ -206,7 +206,7 @@ def run_case(case, rec):
             a = obj(z.copy(), **kw); b = obj(k * z, **kw)
             va, vb = (a.P, b.P) if 'T' in kw else (a.T, b.T)
             if 'P' in kw and not (Tlo < va < Thi): continue
-            rec.check(abs(va - vb) <= 1e-7 * abs(va), 'scale', f'call/{name}', f'{name}: z gives {va!r} but {k}*z gives {vb!r}', detail={'z': z.tolist(), 'k': k, 'ids': ids})
+            rec.check(abs(va - vb) <= 1e-7 * abs(va), 'scale', f'call/{name}/{cls}', f'{name}: z gives {va!r} but {k}*z gives {vb!r}', detail={'z': z.tolist(), 'k': k, 'ids': ids})
         except Exception as e:
             if type(e).__name__ in ('InfeasibleRegion', 'DomainError'): rec.refuse('scaled call refused'); continue
             rec.exception('scale', e, what=f'{name} with k*z raised {type(e).__name__}: {str(e)[:100]}')
